@@ -4,6 +4,7 @@ import Mathlib.Algebra.Order.Field.Rat
 import Mathlib.Tactic.Linarith
 import Mathlib.Tactic.Ring
 import Mathlib.Tactic.FieldSimp
+import Mathlib.Tactic.LinearCombination
 import Model.Tpt
 /-!
 Bridges for the TPT proofs (C07/C08): `sumTo` ↔ `Finset.sum`, soundness of the certified
